@@ -1,3 +1,402 @@
 import InfernoVerif.Lemmas.Lifecycle
+/-!
+# C15 — Trainer / monitor lifecycle: one observation per training step, cells isolated
+
+Property theorems about `Model/Lifecycle.lean` (the state machine of DESIGN Appendix G after the
+repairs D15–D17); helper lemmas are in `Lemmas/Lifecycle.lean`.  Core Lean only.
+
+All statements quantify over EVERY layer topology `topo` (any number of cells, sharing neurons
+and connections in any way), any number of trainers of both kinds, and EVERY finite operation
+list over {new trainer, register_cell, del_cell, add_monitor, del_monitor, trainer.train/eval,
+layer.train/eval, layer step, trainer step, clear, drop-the-trainer-and-collect} from the empty
+state.
+
+* `one_obs_per_training_step` — for every live trainer `T`, registered cell and monitor `m` of it:
+  `count m` (reducer calls, made by the hook mechanism: handles, registration, the layer's hook
+  list) equals `expected m` (the specification's count: +1 per layer step taken while `T.training
+  ∧ layer.training`, 0 at creation and after clear — `expected_layerStep`, `expected_clear`,
+  `expected_other`), and `m` is registered exactly when `T` is training.
+  Hypothesis `NoAbort`: no layer step of the history raised.  It cannot be dropped: D18
+  (`second_trainer_redirects_eligibility`, `second_trainer_breaks_layer_step`).
+* `isolation` — an operation addressed to registration `(T, c)` leaves the monitor objects of every
+  other registration `(T', c')` bit-for-bit unchanged (count, registration, attribute path, …)
+  and its listing entry intact; `isolation_reads` adds the `cell.monitors` indirection under the
+  explicit D18 exclusion.
+* `listings_exact`, `no_dangling_handle`.
+-/
 namespace InfernoVerif.Lifecycle
+
+/-! ## Histories -/
+
+/-- no layer step of the history raised (a `MultiStateMonitor` whose `cell.monitors.<name>` does
+not resolve makes `layer(...)` raise `AttributeError`: D18, or a user deleting a monitor another
+monitor of the same registration reads) -/
+def NoAbort (s : State) : List Op → Prop
+  | [] => True
+  | op :: ops => (op = .layerStep → (step s op).2 = .ok) ∧ NoAbort (step s op).1 ops
+
+theorem exec_cons (s : State) (op : Op) (ops : List Op) : exec s (op :: ops) = exec (step s op).1 ops := rfl
+
+/-- Every reachable state satisfies the structural invariant `WF`: handle consistency, pool
+consistency ("registered iff the trainer is training"), and "every alive monitor is held by its
+alive owner's pool". -/
+theorem reachable_wf (topo : List (Nat × Nat)) (ops : List Op) : WF (exec (init topo) ops) :=
+  exec_wf topo ops
+
+theorem countOK_step {s : State} (w : WF s) (h : CountOK s) (op : Op)
+    (hok : op = .layerStep → (step s op).2 = .ok) : CountOK (step s op).1 := by
+  apply countOK_gc
+  by_cases hop : op = .layerStep
+  · subst hop; exact countOK_layerStep w h (hok rfl)
+  · exact h.of_rel (rel_stepCore s op hop)
+
+theorem countOK_exec (ops : List Op) (s : State) (w : WF s) (h : CountOK s) (hn : NoAbort s ops) :
+    CountOK (exec s ops) := by
+  induction ops generalizing s with
+  | nil => exact h
+  | cons op ops ih =>
+    rw [exec_cons]
+    exact ih _ (step_wf w op) (countOK_step w h op hn.1) hn.2
+
+/-- **one_obs_per_training_step**: after ANY finite history in which no layer step raised, for
+every live trainer `T`, every cell name `n` it has registered and every monitor `m` listed for
+it: the monitor object is alive, belongs to `T`, is registered with the layer exactly when `T`
+is in training mode, and its observation count equals the specification's count — the number of
+layer steps taken while `T.training ∧ layer.training` since `m` was created or last cleared. -/
+theorem one_obs_per_training_step (topo : List (Nat × Nat)) (ops : List Op)
+    (hn : NoAbort (init topo) ops) :
+    let s := exec (init topo) ops
+    ∀ t, (s.trainers t).alive = true → ∀ e ∈ namedMonitors (s.trainers t),
+      (s.mons e.2).alive = true ∧ (s.mons e.2).owner = t ∧
+      ((s.mons e.2).handle.isSome = (s.trainers t).training) ∧
+      (s.mons e.2).count = (s.mons e.2).expected := by
+  intro s t ht e he
+  have w : WF s := exec_wf topo ops
+  have hc : CountOK s := countOK_exec ops _ (init_wf topo) (by intro i hi; simp [init, noMonitor] at hi) hn
+  have hmem : e.2 ∈ poolMids (s.trainers t) := by
+    simp only [namedMonitors, List.mem_flatMap, List.mem_map] at he
+    obtain ⟨g, hg, x, hx, rfl⟩ := he
+    exact mem_gMids.mpr ⟨g, hg, x, hx, rfl⟩
+  obtain ⟨p1, p2, p3⟩ := w.pool t ht e.2 hmem
+  exact ⟨p1, p2, p3, hc e.2 p1⟩
+
+/-! ### What the specification's count is -/
+
+theorem gc_mons_of_live {s : State} {i : Nat} (h : live s i = true) : (gc s).mons i = s.mons i := by
+  simp [gc, h]
+
+/-- a layer step adds one to the specification's count of an alive monitor exactly when its
+trainer and the layer are both in training mode -/
+theorem expected_layerStep {s : State} (w : WF s) (i : Nat) (hal : (s.mons i).alive = true) :
+    ((step s .layerStep).1.mons i).expected =
+      (s.mons i).expected + (if (s.trainers (s.mons i).owner).training = true ∧ s.layerTraining = true then 1 else 0) := by
+  have hl := w.alive_live i hal
+  have hl' := hl
+  simp only [live, referenced, hal, Bool.true_and, Bool.and_eq_true, List.contains_iff_mem] at hl
+  -- the ghost update
+  have hg : ((ghostStep s).mons i).expected =
+      (s.mons i).expected + (if (s.trainers (s.mons i).owner).training = true ∧ s.layerTraining = true then 1 else 0) := by
+    simp only [ghostStep, hal, hl.1, Bool.true_and]
+    cases (s.trainers (s.mons i).owner).training <;> cases s.layerTraining <;> simp [hl.2]
+  have hfields : ∀ (s1 : State), (∀ j, (s1.mons j).alive = (s.mons j).alive ∧ (s1.mons j).owner = (s.mons j).owner) →
+      s1.trainers = s.trainers → live s1 i = true := by
+    intro s1 h1 h2
+    simp only [live, referenced, (h1 i).1, (h1 i).2, h2]
+    exact hl'
+  simp only [step, stepCore]
+  split
+  · rw [gc_mons_of_live]
+    · exact hg
+    · apply hfields (ghostStep s) _ rfl
+      intro j; simp only [ghostStep]; split <;> exact ⟨rfl, rfl⟩
+  · rw [gc_mons_of_live]
+    · simp only [countStep]; split <;> exact hg
+    · apply hfields (countStep (ghostStep s) (ranHooks s)) _ rfl
+      intro j; simp only [countStep, ghostStep]; split <;> split <;> exact ⟨rfl, rfl⟩
+
+/-- `clear` resets count and specification count of every monitor of the trainer -/
+theorem expected_clear {s : State} (w : WF s) (t : Nat) (ht : (s.trainers t).alive = true) (i : Nat)
+    (hi : i ∈ poolMids (s.trainers t)) :
+    ((step s (.clear t)).1.mons i).expected = 0 ∧ ((step s (.clear t)).1.mons i).count = 0 := by
+  obtain ⟨p1, p2, _⟩ := w.pool t ht i hi
+  have hl : live (clearMons s t) i = true := by
+    simp only [live, referenced, clearMons, hi, List.contains_iff_mem, if_true, p1, p2, ht, Bool.true_and]
+  simp only [step, stepCore, ht, Bool.not_true, Bool.false_eq_true, if_false]
+  rw [gc_mons_of_live hl]
+  simp [clearMons, hi]
+
+/-- every other operation leaves both counts of a monitor that survives it unchanged, and a
+monitor created by it starts at zero -/
+theorem expected_other (s : State) (op : Op) (hop : op ≠ .layerStep) (i : Nat)
+    (hal : ((step s op).1.mons i).alive = true) :
+    (((step s op).1.mons i).expected = (s.mons i).expected ∧ ((step s op).1.mons i).count = (s.mons i).count) ∨
+    (((step s op).1.mons i).expected = 0 ∧ ((step s op).1.mons i).count = 0) := by
+  have hl : live (stepCore s op).1 i = true := by
+    simp only [step, gc] at hal
+    split at hal
+    · assumption
+    · simp at hal
+  simp only [step]
+  rw [gc_mons_of_live hl]
+  rcases (rel_stepCore s op hop).h i with h | h
+  · left; exact ⟨h.fields.2.2.2.1, h.fields.2.2.1⟩
+  · right; exact ⟨h.2, h.1⟩
+
+/-! ## Isolation -/
+
+/-- **isolation**: in any reachable (indeed any well-formed) state, an operation addressed to
+registration `(t, n)` — `register_cell`, `del_cell`, `add_monitor`, `del_monitor` of trainer `t`
+under cell name `n` — leaves every OTHER registration `(t', n')` (another trainer, or another
+cell name of the same trainer, even one whose cell shares pooled monitors with `n`'s) alone: its
+group of monitors is listed as before, the trainer's flags are unchanged, and each of its
+monitor objects is unchanged in every field — observation count, specification count, handle
+(registration with the layer), observed attribute path, tags, liveness. -/
+theorem isolation {s : State} (w : WF s) (op : Op) (t n : Nat) (h : addressed op = some (t, n))
+    (t' n' : Nat) (hne : (t', n') ≠ (t, n)) (hal' : (s.trainers t').alive = true)
+    (g : List (Nat × Nat)) (hg : lookup (s.trainers t').groups n' = some g) :
+    let s' := (step s op).1
+    lookup (s'.trainers t').groups n' = some g ∧ (s'.trainers t').alive = true ∧
+    (s'.trainers t').training = (s.trainers t').training ∧
+    ∀ e ∈ g, s'.mons e.2 = s.mons e.2 := by
+  intro s'
+  have fr := stepCore_trFrame s op t n h
+  have hlook : lookup ((stepCore s op).1.trainers t').groups n' = some g ∧
+      ((stepCore s op).1.trainers t').alive = true ∧
+      ((stepCore s op).1.trainers t').training = (s.trainers t').training := by
+    by_cases htt : t' = t
+    · subst htt
+      have hn : n' ≠ n := fun hc => hne (by rw [hc])
+      exact ⟨by rw [fr.groups n' hn]; exact hg, by rw [fr.alive]; exact hal', fr.training⟩
+    · rw [fr.others t' htt]; exact ⟨hg, hal', rfl⟩
+  refine ⟨hlook.1, hlook.2.1, hlook.2.2, ?_⟩
+  intro e he
+  have hm := stepCore_mons_frame w op t n h t' n' hne hal' g hg e he
+  have hp := w.pool t' hal' e.2 (mem_pool_of_lookup (m := e.1) hg (by simpa using he))
+  show (gc (stepCore s op).1).mons e.2 = _
+  rw [gc_mons_of_live, hm]
+  simp only [live, referenced, hm, hp.1, hp.2.1, hlook.2.1, Bool.true_and, List.contains_iff_mem]
+  exact mem_pool_of_lookup (m := e.1) hlook.1 (by simpa using he)
+
+/-- **isolation_reads** (the `cell.monitors` indirection, with the D18 exclusion as an explicit
+hypothesis): let `m` be a monitor of registration `(t', n')` whose reads through `cell.monitors`
+currently resolve to monitors of its OWN registration (`hown`).  An operation addressed to another
+registration `(t, n)` that does not write the `cell.monitors` map of the cell `m` reads
+(`hD18`: no `register_cell` / `add_monitor` for THAT cell — i.e. no second registration of the same
+cell, by another trainer or under another name) leaves what `m` reads unchanged.
+`second_trainer_redirects_eligibility` shows that `hD18` cannot be dropped. -/
+theorem isolation_reads {s : State} (w : WF s) (op : Op) (t n : Nat) (h : addressed op = some (t, n))
+    (t' n' : Nat) (hne : (t', n') ≠ (t, n)) (hal' : (s.trainers t').alive = true)
+    (g : List (Nat × Nat)) (hg : lookup (s.trainers t').groups n' = some g) (e : Nat × Nat) (he : e ∈ g)
+    (hown : ∀ r ∈ (s.mons e.2).reads, ∃ src, getCellMon s.cellMons (s.mons e.2).cell r = some src ∧
+      ∃ m, (m, src) ∈ g)
+    (hD18 : opCell s op ≠ some (s.mons e.2).cell) :
+    resolvedReads (step s op).1 e.2 = resolvedReads s e.2 := by
+  obtain ⟨i1, i2, _, i4⟩ := isolation w op t n h t' n' hne hal' g hg
+  unfold resolvedReads
+  rw [i4 e he]
+  apply List.map_congr_left
+  intro r hr
+  obtain ⟨src, hs1, m, hs2⟩ := hown r hr
+  rw [hs1]
+  have hfr := stepCore_cellMons_frame s op t n h (s.mons e.2).cell r hD18
+  show getCellMon ((stepCore s op).1.cellMons.filter _) _ r = _
+  apply getCellMon_filter
+  · rw [hfr]; exact hs1
+  · intro x _ hx
+    -- `src` belongs to the untouched registration, so reference counting keeps it
+    have hm := stepCore_mons_frame w op t n h t' n' hne hal' g hg (m, src) hs2
+    have hp := w.pool t' hal' src (mem_pool_of_lookup hg hs2)
+    have fr := stepCore_trFrame s op t n h
+    have hlook : lookup ((stepCore s op).1.trainers t').groups n' = some g ∧
+        ((stepCore s op).1.trainers t').alive = true := by
+      by_cases htt : t' = t
+      · subst htt
+        have hn : n' ≠ n := fun hc => hne (by rw [hc])
+        exact ⟨by rw [fr.groups n' hn]; exact hg, by rw [fr.alive]; exact hal'⟩
+      · rw [fr.others t' htt]; exact ⟨hg, hal'⟩
+    simp only at hm
+    simp only [hx, live, referenced, hm, hp.1, hp.2.1, hlook.2, Bool.true_and, List.contains_iff_mem]
+    simpa using mem_pool_of_lookup hlook.1 hs2
+
+/-- `isolation` along histories: it holds in every reachable state. -/
+theorem isolation_reachable (topo : List (Nat × Nat)) (ops : List Op) (op : Op) (t n : Nat)
+    (h : addressed op = some (t, n)) (t' n' : Nat) (hne : (t', n') ≠ (t, n))
+    (hal' : ((exec (init topo) ops).trainers t').alive = true) (g : List (Nat × Nat))
+    (hg : lookup ((exec (init topo) ops).trainers t').groups n' = some g) :
+    let s := exec (init topo) ops
+    let s' := exec (init topo) (ops ++ [op])
+    lookup (s'.trainers t').groups n' = some g ∧ ∀ e ∈ g, s'.mons e.2 = s.mons e.2 := by
+  intro s s'
+  have e : s' = (step s op).1 := by simp [s', s, exec, List.foldl_append]
+  have := isolation (exec_wf topo ops) op t n h t' n' hne hal' g hg
+  rw [e]; exact ⟨this.1, this.2.2.2⟩
+
+/-! ## Listings and handles -/
+
+theorem nodup_eraseDups (l : List Nat) : l.eraseDups.Nodup := by
+  have : ∀ n (l : List Nat), l.length ≤ n → l.eraseDups.Nodup := by
+    intro n
+    induction n with
+    | zero => intro l hl; have : l = [] := List.eq_nil_of_length_eq_zero (by omega); subst this; simp
+    | succ n ih =>
+      intro l hl
+      cases l with
+      | nil => simp
+      | cons a as =>
+        rw [List.eraseDups_cons, List.nodup_cons]
+        refine ⟨?_, ih _ (by have := List.length_filter_le (fun b => !b == a) as; simp at hl; omega)⟩
+        rw [List.mem_eraseDups, List.mem_filter]
+        simp
+  exact this l.length l (Nat.le_refl _)
+
+/-- **listings_exact**: after any history, for every live trainer
+* `named_monitors` lists exactly the pool's entries (cell name, monitor name, monitor), in
+  `ModuleDict` order;
+* `monitors` lists each monitor object held by the pool exactly once and nothing else;
+* `cells` lists exactly the registered cells;
+* every listed monitor is alive, owned by this trainer and registered iff the trainer trains. -/
+theorem listings_exact (topo : List (Nat × Nat)) (ops : List Op) :
+    let s := exec (init topo) ops
+    ∀ t, (s.trainers t).alive = true →
+      (∀ n m mid, ((n, m), mid) ∈ namedMonitors (s.trainers t) ↔
+        ∃ g, (n, g) ∈ (s.trainers t).groups ∧ (m, mid) ∈ g) ∧
+      (distinctMids (s.trainers t)).Nodup ∧
+      (∀ mid, mid ∈ distinctMids (s.trainers t) ↔ ∃ e ∈ namedMonitors (s.trainers t), e.2 = mid) ∧
+      cellsListing (s.trainers t) = (s.trainers t).cells ∧
+      (∀ mid ∈ distinctMids (s.trainers t), (s.mons mid).alive = true ∧ (s.mons mid).owner = t ∧
+        ((s.mons mid).handle.isSome = (s.trainers t).training)) := by
+  intro s t ht
+  have w : WF s := exec_wf topo ops
+  refine ⟨?_, nodup_eraseDups _, ?_, rfl, ?_⟩
+  · intro n m mid
+    simp only [namedMonitors, List.mem_flatMap, List.mem_map]
+    constructor
+    · rintro ⟨g, hg, x, hx, hxe⟩
+      simp only [Prod.mk.injEq] at hxe
+      obtain ⟨⟨rfl, rfl⟩, rfl⟩ := hxe
+      exact ⟨g.2, hg, hx⟩
+    · rintro ⟨g, hg, hx⟩
+      exact ⟨(n, g), hg, (m, mid), hx, rfl⟩
+  · intro mid
+    unfold distinctMids
+    rw [List.mem_eraseDups, poolMids_eq, mem_gMids]
+    simp only [namedMonitors, List.mem_flatMap, List.mem_map]
+    constructor
+    · rintro ⟨g, hg, x, hx, rfl⟩; exact ⟨((g.1, x.1), x.2), ⟨g, hg, x, hx, rfl⟩, rfl⟩
+    · rintro ⟨e, ⟨g, hg, x, hx, rfl⟩, rfl⟩; exact ⟨g, hg, x, hx, rfl⟩
+  · intro mid hmid
+    unfold distinctMids at hmid
+    rw [List.mem_eraseDups] at hmid
+    exact w.pool t ht mid hmid
+
+/-- **no_dangling_handle**: after any history, the layer's hook list and the monitors' handle
+fields describe each other exactly: every entry has a fresh, unique id and belongs to an alive
+monitor holding that id, whose (alive) trainer is in training mode and lists it; every handle a
+monitor holds is in the list; a monitor of a trainer in evaluation mode, a deleted monitor and a
+monitor of a dropped trainer have no handle. -/
+theorem no_dangling_handle (topo : List (Nat × Nat)) (ops : List Op) :
+    let s := exec (init topo) ops
+    (∀ e ∈ s.post, e.1 < s.nextId ∧ (s.mons e.2).alive = true ∧ (s.mons e.2).handle = some e.1 ∧
+      (s.trainers (s.mons e.2).owner).alive = true ∧ (s.trainers (s.mons e.2).owner).training = true ∧
+      e.2 ∈ poolMids (s.trainers (s.mons e.2).owner)) ∧
+    s.post.Pairwise (fun a b => a.1 ≠ b.1) ∧
+    (∀ mid hid, (s.mons mid).handle = some hid → (hid, mid) ∈ s.post) ∧
+    (∀ mid, (s.mons mid).alive = false → (s.mons mid).handle = none) ∧
+    (∀ t, (s.trainers t).alive = true → (s.trainers t).training = false →
+      ∀ mid ∈ poolMids (s.trainers t), (s.mons mid).handle = none) ∧
+    (∀ mid, (s.mons mid).alive = true → (s.trainers (s.mons mid).owner).alive = true) := by
+  intro s
+  have w : WF s := exec_wf topo ops
+  refine ⟨?_, w.h.post_nodup, w.h.handle_mem, fun mid h => w.h.dead_no_handle h, ?_, ?_⟩
+  · intro e he
+    obtain ⟨h1, h2, h3⟩ := w.h.post_ok e he
+    have hl := w.alive_live e.2 h2
+    simp only [live, referenced, h2, Bool.true_and, Bool.and_eq_true, List.contains_iff_mem] at hl
+    have hp := w.pool _ hl.1 e.2 hl.2
+    refine ⟨h1, h2, h3, hl.1, ?_, hl.2⟩
+    rw [← hp.2.2, h3]; rfl
+  · intro t ht htr mid hmid
+    have hp := w.pool t ht mid hmid
+    rw [htr] at hp
+    cases hh : (s.mons mid).handle with
+    | none => rfl
+    | some v => rw [hh] at hp; simp at hp
+  · intro mid hal
+    have hl := w.alive_live mid hal
+    simp only [live, referenced, hal, Bool.true_and, Bool.and_eq_true] at hl
+    exact hl.1
+
+/-! ## Stated, not proved (kept out of the theorems above; the correspondence check exercises them)
+
+-- FULL STATEMENT (unproved): noAbort_of_single_registration
+--   ∀ topo ops, (no cell index is the target of two `registerCell` operations of `ops`, by whichever
+--   trainers / names) → NoAbort (init topo) ops
+--   (a syntactic sufficient condition for the hypothesis of `one_obs_per_training_step`: with one
+--   registration per cell every read of a MultiStateMonitor resolves to its own registration's monitors;
+--   missing: the invariant "cellMons[cell][r] is the entry of the only registration of that cell" through
+--   registerCell / addMonitor / gc.  `second_trainer_breaks_layer_step` shows the condition is needed.)
+--
+-- FULL STATEMENT (unproved): listed_cells_registered
+--   ∀ topo ops t, alive t → ∀ g ∈ ((exec (init topo) ops).trainers t).groups,
+--     (lookup ((exec (init topo) ops).trainers t).cells g.1).isSome
+--   (every group of `named_monitors` belongs to a registered cell name; missing: the key-set lemmas for
+--   groupsInsert / groupsErase / filter under registerCell, delCell, addMonitor, delMonitor.)
+--
+-- FULL STATEMENT (unproved): hook_count
+--   ∀ topo ops, (exec (init topo) ops).post.length =
+--     Σ over alive training trainers t of (distinctMids (trainers t)).length
+--   (`no_dangling_handle` gives the two inclusions and uniqueness of ids; the cardinality argument — a
+--   permutation between the hook list and the disjoint union of the pools — is not carried out.)
+-/
+
+/-! ## D18: the exclusion that cannot be dropped (negation witnesses by `decide`) -/
+
+/-- two cells sharing the post-synaptic neuron -/
+def topo2 : List (Nat × Nat) := [(0, 0), (1, 0)]
+
+/-- an eligibility-trace trainer registers cell 0, then a plain STDP trainer registers it too -/
+def d18prog : List Op := [.newTrainer 1, .newTrainer 0, .registerCell 0 0 0 0, .registerCell 1 0 0 0]
+
+/-- **second_trainer_redirects_eligibility** (D18, KNOWN finding): before the second trainer
+registers the cell, the eligibility monitor (monitor 4: `elig_post` of trainer 0) reads trainer 0's
+own `trace_pre` / `spike_post` (monitors 2 and 1) through `cell.monitors`; afterwards it reads
+the newcomer's monitors 8 and 7 — although the operation was addressed to another trainer. -/
+theorem second_trainer_redirects_eligibility :
+    resolvedReads (exec (init topo2) (d18prog.take 3)) 4 = [some 2, some 1] ∧
+    readsOwn (exec (init topo2) (d18prog.take 3)) 4 = true ∧
+    resolvedReads (exec (init topo2) d18prog) 4 = [some 8, some 7] ∧
+    readsOwn (exec (init topo2) d18prog) 4 = false ∧
+    -- the operation is addressed to ANOTHER registration, (trainer 1, name 0) ≠ (trainer 0, name 0) …
+    addressed (.registerCell 1 0 0 0) = some (1, 0) ∧
+    -- … but writes the `cell.monitors` map of the very cell monitor 4 reads: `hD18` of `isolation_reads` fails
+    opCell (exec (init topo2) (d18prog.take 3)) (.registerCell 1 0 0 0) =
+      some ((exec (init topo2) (d18prog.take 3)).mons 4).cell := by decide
+
+/-- … and once the newcomer deletes the cell again its monitors are finalised, the weak
+`cell.monitors` entries vanish, and the first trainer's next layer step raises — so `NoAbort`
+is a genuine hypothesis of `one_obs_per_training_step`. -/
+theorem second_trainer_breaks_layer_step :
+    (step (exec (init topo2) (d18prog ++ [.delCell 1 0])) .layerStep).2 = .err .AttributeError ∧
+    (step (exec (init topo2) (d18prog.take 3)) .layerStep).2 = .ok := by decide
+
+/-! ## Non-vacuity: concrete states meeting the hypotheses -/
+
+/-- one STDP-like trainer, two cells sharing the post-synaptic neuron: `trace_post` and
+`spike_post` (monitors 0, 1) are pooled, so six monitors serve eight entries -/
+def shared : List Op := [.newTrainer 0, .registerCell 0 0 0 0, .registerCell 0 1 1 0]
+
+example : (namedMonitors ((exec (init topo2) shared).trainers 0)).map (·.2) = [0, 1, 2, 3, 0, 1, 4, 5] := by decide
+example : distinctMids ((exec (init topo2) shared).trainers 0) = [0, 1, 2, 3, 4, 5] := by decide
+example : (exec (init topo2) shared).post.length = 6 := by decide
+-- D17 (repaired): deleting the first cell keeps the shared monitors registered and recording
+example : (exec (init topo2) (shared ++ [.layerStep, .delCell 0 0, .layerStep])).post.length = 4 := by decide
+example : ((exec (init topo2) (shared ++ [.layerStep, .delCell 0 0, .layerStep])).mons 0).count = 2 := by decide
+example : ((exec (init topo2) (shared ++ [.layerStep, .delCell 0 0, .layerStep])).mons 0).expected = 2 := by decide
+example : NoAbort (init topo2) (shared ++ [.layerStep, .delCell 0 0, .layerStep]) := by
+  simp only [NoAbort, shared, List.cons_append, List.nil_append]; decide
+-- evaluation mode: nothing is recorded, by count and by specification
+example : ((exec (init topo2) (shared ++ [.trainerTrain 0 false, .layerStep])).mons 0).count = 0 := by decide
+example : (exec (init topo2) (shared ++ [.trainerTrain 0 false, .layerStep])).post = [] := by decide
+example : addressed (.delCell 0 0) = some (0, 0) := rfl
+
 end InfernoVerif.Lifecycle
